@@ -2178,6 +2178,28 @@ class SymEval:
                 if all(t is not None for t in ts):
                     return all(ts) if q.endswith('all') else any(ts)
             return UNK
+        if q == 'numpy.reshape' and len(args) == 2 and not kwargs and \
+                isinstance(args[0], (list, tuple)) and args[0] and \
+                all(isinstance(x, (Rat, int, float)) and not isinstance(x, bool) for x in args[0]) \
+                and isinstance(args[1], (list, tuple)) and len(args[1]) == 2:
+            # np.reshape([a, b, ...], (n, k)) of k per-sample scalars.  One sample: a (1, k) row.
+            # A stack: the list is a (k, n) array, and re-reading it row-major as (n, k) puts
+            # values of OTHER samples into row i (a transpose was meant) - the entries are then
+            # uninterpreted atoms, equal to nothing the scalar form produces
+            k = len(args[0])
+            d0, d1 = args[1]
+            c0 = int(self.A.const_of(d0)) if isinstance(d0, Rat) and self.A.is_const(d0) else d0
+            c1 = int(self.A.const_of(d1)) if isinstance(d1, Rat) and self.A.is_const(d1) else d1
+            if c1 == k and c0 == 1 and not self.stacked:
+                # the leading axis of length one is the (implicit) sample axis
+                return SArray((k,), {(j,): self.rat(x) for j, x in enumerate(args[0])}, None, True)
+            if c1 == k and self.stacked and not isinstance(c0, int):
+                if k == 1:
+                    return SArray((1,), {(0,): self.rat(args[0][0])}, None, True)
+                self._scr = getattr(self, '_scr', 0) + 1
+                return SArray((k,), {(j,): self.A.call_atom(
+                    'rows_mixed_by_reshape(%d,%d@%d)' % (self._scr, j, getattr(node, 'lineno', 0)))
+                    for j in range(k)}, None, True)
         if q in ('numpy.all', 'numpy.any') and len(args) == 1 and not kwargs and \
                 isinstance(args[0], (SArray, list, tuple)):
             # element-wise truth: numeric constants decide, generic symbols do not
